@@ -262,8 +262,10 @@ impl Run {
         self.flush_violations();
         let known_hit = self.known_hit.lock().unwrap().clone();
         for k in &self.known {
-            if let Some(n) = known_hit.get(&k.class) {
-                println!("KNOWN-FINDING: property={} match={} ({} witnesses this run) {}", self.prop, k.class, n, k.what);
+            match known_hit.get(&k.class) {
+                Some(n) => println!("KNOWN-FINDING: property={} match={} ({} witnesses this run) {}", self.prop, k.class, n, k.what),
+                // listed, but this run's bound did not reach a witness of the class (e.g. it needs the thorough depth)
+                None => println!("KNOWN-FINDING: property={} match={} (listed; no witness within this run's bound) {}", self.prop, k.class, k.what),
             }
         }
         let stale: Vec<&str> = self.known.iter().filter(|k| !known_hit.contains_key(&k.class)).map(|k| k.class.as_str()).collect();
